@@ -201,7 +201,9 @@ func world(run *vh.Run, label string, wi, nBlocks int) {
 			addr := crypto.CreateAddress(pl.Sender.Addr, pl.Tx.Nonce())
 			w.Contracts = append(w.Contracts, &vh.Contract{Addr: addr, Prog: progs[i], Deployer: pl.Sender.Addr})
 			tracked[addr] = "contract"
-			if progs[i].Uses["selfdestruct"] > 0 {
+			// a contract can destroy itself through its own SELFDESTRUCT or by running a callee's code in its own
+			// context (DELEGATECALL / CALLCODE to a contract that contains SELFDESTRUCT)
+			if progs[i].Uses["selfdestruct"] > 0 || progs[i].Uses["call:DELEGATECALL"] > 0 || progs[i].Uses["call:CALLCODE"] > 0 {
 				selfDestructable[addr] = true
 			}
 		}
